@@ -25,6 +25,13 @@ static double verif_pow(double a,double b){ return (double)pow_guess; }
 #endif
 void harness(void){
   static_codebook b; memset(&b,0,sizeof b);
+#ifdef ENTC
+  /* high-dimension configuration: entries and the libm guess are configuration, dim symbolic in [DLO,DHI] (all arithmetic then folds
+     per iteration; with everything symbolic the 64-bit divisions exhaust 12 GB).  For entries < 2^dim the answer is 1. */
+  b.entries=ENTC; b.dim=ND_range(DLO,DHI); pow_guess=GUESSC;
+  { long v=_book_maptype1_quantvals(&b); CHECK(v==1,"lookup1_values == 1 whenever 1 <= entries < 2^dim (incl. dims where (vals+1)^dim overflows 64 bits)"); if(b.dim>=64) WITNESS_AT("dim >= 64"); }
+  return;
+#endif
   b.entries=ND_range(0,EMAX); b.dim=ND_range(0,DMAX);
   long r=ND_range(0,EMAX);
   if(b.entries>=1 && b.dim>=1){
